@@ -2984,3 +2984,81 @@ bus_signals_test (const char *test_data_dir _DBUS_GNUC_UNUSED)
 }
 
 #endif /* DBUS_ENABLE_EMBEDDED_TESTS */
+
+#ifdef DBUS_VERIF
+/* Verification hook (read-only): canonical text of every rule in a
+ * matchmaker, one line per rule. */
+dbus_bool_t bus_verif_dump_matchmaker (BusMatchmaker *matchmaker, const char *tag, DBusString *out);
+
+static dbus_bool_t
+verif_dump_rule_list (DBusList   **rules,
+                      const char  *tag,
+                      DBusString  *out)
+{
+  DBusList *link;
+
+  for (link = _dbus_list_get_first_link (rules);
+       link != NULL;
+       link = _dbus_list_get_next_link (rules, link))
+    {
+      BusMatchRule *rule = link->data;
+      int i;
+
+      if (!_dbus_string_append_printf (out, "%s %s flags=%x type=%d iface=%s member=%s sender=%s dest=%s path=%s args_len=%d",
+                                       tag,
+                                       rule->matches_go_to != NULL && bus_connection_is_active (rule->matches_go_to) ?
+                                         bus_connection_get_name (rule->matches_go_to) : "(inactive)",
+                                       rule->flags, rule->message_type,
+                                       rule->interface ? rule->interface : "-",
+                                       rule->member ? rule->member : "-",
+                                       rule->sender ? rule->sender : "-",
+                                       rule->destination ? rule->destination : "-",
+                                       rule->path ? rule->path : "-",
+                                       rule->args_len))
+        return FALSE;
+
+      for (i = 0; i < rule->args_len; i++)
+        {
+          if (rule->args[i] == NULL)
+            continue;
+          if (!_dbus_string_append_printf (out, " arg%d/%x='%s'", i,
+                                           rule->arg_lens[i] & BUS_MATCH_ARG_FLAGS,
+                                           rule->args[i]))
+            return FALSE;
+        }
+
+      if (!_dbus_string_append_byte (out, '\n'))
+        return FALSE;
+    }
+
+  return TRUE;
+}
+
+dbus_bool_t
+bus_verif_dump_matchmaker (BusMatchmaker *matchmaker,
+                           const char    *tag,
+                           DBusString    *out)
+{
+  int i;
+
+  for (i = DBUS_MESSAGE_TYPE_INVALID; i < DBUS_NUM_MESSAGE_TYPES; i++)
+    {
+      RulePool *p = matchmaker->rules_by_type + i;
+      DBusHashIter iter;
+
+      if (!verif_dump_rule_list (&p->rules_without_iface, tag, out))
+        return FALSE;
+
+      _dbus_hash_iter_init (p->rules_by_iface, &iter);
+      while (_dbus_hash_iter_next (&iter))
+        {
+          DBusList **list = _dbus_hash_iter_get_value (&iter);
+
+          if (!verif_dump_rule_list (list, tag, out))
+            return FALSE;
+        }
+    }
+
+  return TRUE;
+}
+#endif /* DBUS_VERIF */
